@@ -570,7 +570,13 @@ func (s *Store[K, V]) postDelete(entry *Entry[K, V]) {
 // remove entry from cache/policy/timingwheel and add back to pool
 // this method must be used with policy mutex together
 func (s *Store[K, V]) removeEntry(entry *Entry[K, V], reason RemoveReason) {
-	entry.flag.SetRemoved(true)
+	s.tryRemoveEntry(entry, reason)
+}
+
+// tryRemoveEntry is removeEntry reporting whether the entry was removed.
+// An EXPIRED entry whose deadline has been extended in the meantime is not removed:
+// it is left as it is and put back to the timing wheel under its new deadline.
+func (s *Store[K, V]) tryRemoveEntry(entry *Entry[K, V], reason RemoveReason) bool {
 	_, index := s.index(entry.key)
 	shard := s.shards[index]
 
@@ -578,9 +584,11 @@ func (s *Store[K, V]) removeEntry(entry *Entry[K, V], reason RemoveReason) {
 		// entry might updated already
 		// update expire filed are protected by shard mutex
 		if entry.expire.Load() > s.timerwheel.clock.NowNano() {
-			return
+			s.timerwheel.schedule(entry)
+			return false
 		}
 	}
+	entry.flag.SetRemoved(true)
 
 	if prev := entry.meta.prev; prev != nil {
 		s.policy.Remove(entry, false)
@@ -604,7 +612,7 @@ func (s *Store[K, V]) removeEntry(entry *Entry[K, V], reason RemoveReason) {
 					reason: reason,
 					shard:  shard,
 				}:
-					return
+					return true
 				default:
 				}
 			}
@@ -626,6 +634,7 @@ func (s *Store[K, V]) removeEntry(entry *Entry[K, V], reason RemoveReason) {
 		kv := s.kvBuilder(entry)
 		_ = s.removalCallback(kv, reason)
 	}
+	return true
 }
 
 func (s *Store[K, V]) drainRead(buffer []ReadBufItem[K, V]) {
@@ -678,8 +687,11 @@ func (s *Store[K, V]) sinkWrite(item WriteBufItem[K, V]) {
 		entry.flag.SetRemoved(false)
 		if expire := entry.expire.Load(); expire != 0 {
 			if expire <= s.timerwheel.clock.NowNano() {
-				s.removeEntry(entry, EXPIRED)
-				return
+				// not removed if the deadline was extended in the meantime,
+				// insert the entry as usual then.
+				if s.tryRemoveEntry(entry, EXPIRED) {
+					return
+				}
 			} else {
 				s.timerwheel.schedule(entry)
 			}
